@@ -17,7 +17,7 @@ type Bundle struct {
 	Tags       map[string]bool
 	AnonPtr    bool // uses an anonymous pointer (not in W for Expand)
 	AnonShared bool // anonymous pointer into a shared parameter/response (not in W with RemoveUnused)
-	Variant    int // >= 0: selects the sub-variant of a feature deterministically (systematic corpus); < 0: drawn
+	Variant    int  // >= 0: selects the sub-variant of a feature deterministically (systematic corpus); < 0: drawn
 	n          int
 	rng        *rand.Rand
 	hostile    bool
